@@ -190,7 +190,7 @@ func vkConfigs(thorough, dnssec bool) []vkCfg {
 			}{
 				{t(40, 6, 40), "honest", false}, {t(6, 40, 40), "honest", false}, {t(40, 40, 6), "honest", false}, {t(40, 2, 40), "honest", false},
 				{t(40, 6, 40), "authns", false}, {t(40, 2, 40), "authns", false}, {t(40, 6, 40), "selfref", false},
-				{t(40, 2, 40), "twons", false}, {t(40, 6, 40), "twons", false},
+				{t(40, 2, 40), "twons", false}, {t(40, 2, 40), "tinyttl", false},
 				{t(40, 6, 40), "honest", true}, {t(40, 2, 40), "honest", true}, {t(6, 40, 40), "honest", true}, {t(40, 40, 6), "honest", true},
 				{t(40, 6, 40), "authns", true}, {t(40, 6, 40), "selfref", true}, {t(40, 2, 40), "twons", true},
 			} {
@@ -200,7 +200,7 @@ func vkConfigs(thorough, dnssec bool) []vkCfg {
 		}
 		ttls := [][3]uint32{t(40, 6, 40), t(6, 40, 40), t(40, 40, 6), t(40, 2, 40), t(2, 6, 40), t(40, 6, 2), t(3600, 6, 3600), t(40, 0, 40), t(6, 6, 6), t(3600, 3600, 3600)}
 		for _, pf := range []bool{false, true} {
-			for _, b := range []string{"honest", "authns", "selfref", "twons", "bigttl"} {
+			for _, b := range []string{"honest", "authns", "selfref", "twons", "bigttl", "tinyttl"} {
 				for i, x := range ttls {
 					if b != "honest" && i >= 4 && !(b == "twons" && x[1] == 0) {
 						continue // the non-honest behaviours get the four basic TTL shapes (+ TTL 0 for the provisional entries)
@@ -299,8 +299,14 @@ func vkExplore(t *testing.T, unit string, dnssec bool) {
 	for _, sp := range spaces {
 		for _, cfg := range cfgs {
 			if c.Mine(n) {
-				if sp.Name == "full" && c.Quick() && !dnssec && !cfg.Prefetch {
-					sp.Depth++ // without the refresh machinery a history costs a third: one level more fits
+				if c.Quick() && !dnssec {
+					// a history without the refresh machinery costs a third of one with it
+					if sp.Name == "full" && !cfg.Prefetch {
+						sp.Depth++
+					}
+					if cfg.Prefetch && sp.Name != "full" && sp.Name != "hot" {
+						sp.Depth--
+					}
 				}
 				runs = append(runs, &bfs{cfg: cfg, sp: sp, seen: map[string]bool{}, frontier: [][]vkEv{nil}})
 			}
